@@ -272,12 +272,18 @@ def c09(res, rng, tier):
         pairs = b"".join(k + b"K" + bytes([i + 1]) for i, k in enumerate(ks))
         nt_progs += [b"(" + pairs + b"d.", b"}(" + pairs + b"u.", b"}" + b"".join(k + b"K" + bytes([i + 1]) + b"s" for i, k in enumerate(ks)) + b".",
                      b"}q\x00(" + pairs + b"uh\x00."]
+    # keys neither language can hash (list, dict, bytearray - bare and inside Tuple / Call / Ref at any depth) in every
+    # dict-building opcode, first or after a good pair, and in a dict nested as a value: an error in both dict modes,
+    # never a panic and never a dropped entry; the reference is the decoder model (C17's theorems)
+    import props_dict
+    for name, key in props_dict.unhashable_key_programs():
+        nt_progs += [b"(" + key + b"Nd.", b"}" + key + b"Ns.", b"}(K\x05N" + key + b"Nu.", b"}K\x01}" + key + b"K\x02ss.", b"(K\x01(" + key + b"Ndd."]
     nt_lines = ["dec %s %s 0 %s" % (pd, su, p.hex()) for p in nt_progs for pd, su in CONFIGS]
     nt_impl = C.implrun(nt_lines)
     nt_model = C.modelrun(nt_lines)
     for l, io_, mo in zip(nt_lines, nt_impl, nt_model):
         if strip_model(mo) != io_:
-            res.violation("str / bytes / Python-2 str keys of equal content: Decode gives %s, the reference dictionary (Dict model) %s" % (io_[:120], strip_model(mo)[:120]),
+            res.violation("dict-building program (keys of equal content in different kinds / unhashable keys): Decode gives %s, the reference dictionary (decoder + Dict model) %s" % (io_[:120], strip_model(mo)[:120]),
                           {"kind": "impl", "case": l, "observed": io_[:400], "model": mo[:400], "cmd": "echo '%s' | harness/go/implrun" % l})
     res.coverage.update({
         "non_transitive_key_programs": len(nt_lines),
@@ -424,9 +430,8 @@ def c02(res, rng, tier):
     many = [(str(i), (i, str(i))) for i in range(300)]   # tuples: shared lists would hit the known finding stale_list_view
     batch.append(([many, many[250:], [m[1] for m in many[::7]]], range(0, 6), (pickle.dumps, pickle._dumps)))
     batch.append(([(float(i),) for i in range(700)] * 2, (1, 3, 4), (pickle.dumps,)))
-    if not q:
-        wide = [(i,) for i in range(66000)]
-        batch.append(([wide, wide[65530:], wide[255:258]], (2, 4), (pickle.dumps,)))
+    # (65536+ entries would exercise the third index byte, but the decoder model's memo is an association list:
+    #  quadratic, 12 minutes for one such pickle - left to the 4-byte operands of the opcode sweep)
     for o, protos, dumpers in batch:
         for proto in protos:
             for dumper in dumpers:
